@@ -93,6 +93,10 @@ type Case struct {
 	Frag       *Frag     `json:"frag,omitempty"`        // C08
 	SrcFault   *SrcFault `json:"src_fault,omitempty"`   // C10
 	Cut        *int      `json:"cut,omitempty"`         // C11: durable prefix length
+	// C11: the reading program held the source object open while the file was
+	// still complete (it read it once), then the crash cut the file and the
+	// program opens a new reader on the same object.
+	HeldHandle bool `json:"held_handle,omitempty"`
 	ReadMode   string    `json:"read_mode,omitempty"`   // client variant of the reader ("" = documented loop; errcheck)
 
 	Tasks []TaskSpec `json:"tasks,omitempty"` // C13
